@@ -35,6 +35,8 @@ func main() {
 		os.Exit(modeTypes(os.Args[2:]))
 	case "corpus":
 		os.Exit(modeCorpus(os.Args[2:]))
+	case "canary-worker":
+		os.Exit(canaryWorker())
 	default:
 		fmt.Fprintf(os.Stderr, "unknown mode %q\n", os.Args[1])
 		os.Exit(2)
@@ -70,15 +72,13 @@ func probe(o *hxlib.Out) variant {
 	var b bytes.Buffer
 	c.Marshal(&b)
 	data := append(b.Bytes(), gateRecord(byte(circuit.INV), 0, 0, 0)...)
-	r := sandbox(func() (*circuit.Circuit, error) { return circuit.ParseMPCLC(bytes.NewReader(data)) })
+	r := guarded("pm", stdRd, data)
 	v.guard = r.class == "error"
 	o.Meta["probe_extra_gate_record"] = r.class
 	// (2) a six-byte name through a reader that delivers one byte per Read
 	b.Reset()
 	c.Marshal(&b)
-	r = sandbox(func() (*circuit.Circuit, error) {
-		return circuit.ParseMPCLC(rdCfg{4096, 1, 0}.reader(b.Bytes()))
-	})
+	r = guarded("pm", rdCfg{4096, 1, 0}, b.Bytes())
 	v.fullStr = r.class == "ok" && len(r.c.Inputs) == 1 && r.c.Inputs[0].Name == zname
 	o.Meta["probe_one_byte_reader"] = r.class
 	o.Meta["variant_parseString_ReadFull"] = v.fullStr
@@ -88,14 +88,45 @@ func probe(o *hxlib.Out) variant {
 
 // ---------------------------------------------------------------- parse ops
 
+var theCanary canary
+
+// guarded runs one parser call: first in the canary child, then (if that
+// returned) in-process under recover.
+func guarded(kind string, rd rdCfg, data []byte) outcome {
+	switch theCanary.try(kind, rd, data) {
+	case "hang":
+		return outcome{class: "timeout"}
+	case "crash":
+		return outcome{class: "crash"}
+	case "skipped":
+		return outcome{class: "skipped"}
+	}
+	if kind == "pm" {
+		return sandbox(func() (*circuit.Circuit, error) { return circuit.ParseMPCLC(rd.reader(data)) })
+	}
+	return sandbox(func() (*circuit.Circuit, error) { return circuit.ParseBristol(bytes.NewReader(data)) })
+}
+
+// aborted: the canary died/hung canaryMaxStrikes times; enough evidence, the
+// rest of the run is skipped.
+func aborted(o *hxlib.Out) bool {
+	if theCanary.strikes >= canaryMaxStrikes {
+		o.Count("aborted_after_canary_strikes")
+		return true
+	}
+	return false
+}
+
 func parseMPCLC(o *hxlib.Out, v variant, data []byte, rd rdCfg) (string, outcome) {
 	op := fmt.Sprintf("pm %d %s %s", v.code(), rd, hexOf(data))
 	if oversizeMPCLC(rd.reader(data), v.fullStr) {
 		emit(o, op, "oversize")
 		return op, outcome{class: "oversize"}
 	}
-	r := sandbox(func() (*circuit.Circuit, error) { return circuit.ParseMPCLC(rd.reader(data)) })
-	emit(o, op, r.line())
+	r := guarded("pm", rd, data)
+	if r.class != "skipped" {
+		emit(o, op, r.line())
+	}
 	return op, r
 }
 
@@ -105,8 +136,10 @@ func parseBristol(o *hxlib.Out, data []byte) (string, outcome) {
 		emit(o, op, "oversize")
 		return op, outcome{class: "oversize"}
 	}
-	r := sandbox(func() (*circuit.Circuit, error) { return circuit.ParseBristol(bytes.NewReader(data)) })
-	emit(o, op, r.line())
+	r := guarded("pb", stdRd, data)
+	if r.class != "skipped" {
+		emit(o, op, r.line())
+	}
 	return op, r
 }
 
@@ -131,6 +164,9 @@ func neverCrashes(o *hxlib.Out, format string, idx int, what string, data []byte
 			"panic_class": panicClass(r, data), "file_hex": clipHex(data), "file_len": len(data)})
 	case "timeout":
 		o.Fail("c14-"+format+"-hang", map[string]any{"case": idx, "mutation": what, "file_hex": clipHex(data), "file_len": len(data)})
+	case "crash":
+		o.Fail("c14-"+format+"-crash", map[string]any{"case": idx, "mutation": what, "file_hex": clipHex(data), "file_len": len(data),
+			"what": "the process running the parser died (fatal error / out of memory under a 6 GiB address space limit)"})
 	case "ok":
 		if d := wellFormed(r.c); d != "" {
 			o.Fail("c14-"+format+"-ok-not-wellformed", map[string]any{"case": idx, "mutation": what, "defect": d,
@@ -188,6 +224,7 @@ func sameFunction(r *hxlib.Rng, a, b *circuit.Circuit) bool {
 func modeRT(args []string) int {
 	cf, o := hxlib.ParseCommon("c14-rt", args, nil)
 	defer o.Close()
+	defer theCanary.stop()
 	v := probe(o)
 	rng := hxlib.NewRng(cf.Seed)
 	mixes := []string{"uniform", "and", "orinv", "xnor", "free"}
@@ -197,6 +234,9 @@ func modeRT(args []string) int {
 	}
 	for i := 0; i < cf.N; i++ {
 		r := rng.Fork()
+		if aborted(o) {
+			break
+		}
 		if cf.Only >= 0 && i != cf.Only {
 			continue
 		}
@@ -334,11 +374,15 @@ func clip(s string, n int) string {
 func modeFuzz(args []string) int {
 	cf, o := hxlib.ParseCommon("c14-fuzz", args, nil)
 	defer o.Close()
+	defer theCanary.stop()
 	v := probe(o)
 	rng := hxlib.NewRng(cf.Seed)
 	mixes := []string{"uniform", "and", "orinv", "free"}
 	for i := 0; i < cf.N; i++ {
 		r := rng.Fork()
+		if aborted(o) {
+			break
+		}
 		if cf.Only >= 0 && i != cf.Only {
 			continue
 		}
@@ -407,6 +451,7 @@ func modeFuzz(args []string) int {
 func modeCorpus(args []string) int {
 	cf, o := hxlib.ParseCommon("c14-corpus", args, nil)
 	defer o.Close()
+	defer theCanary.stop()
 	v := probe(o)
 	text, err := os.ReadFile(cf.Extra)
 	if err != nil {
